@@ -18,6 +18,8 @@ A_VCPREFIX = "switch prefix of proof.RootFromConsistencyProof (equal sizes, size
 
 GETCP = "(*%s/internal/witness.Witness).GetCheckpoint" % W
 
+BA = "%s/internal/feeder/bastion" % W
+OW = "%s/omniwitness" % W
 IM = "%s/internal/persistence/inmemory" % W
 SQ = "%s/internal/persistence/sql" % W
 SQL_FUNCS = [SQ + ".verifScenarioWrite", SQ + ".verifScenarioRefuse", SQ + ".verifScenarioRead", SQ + ".sqlLogPersistence).Logs"]
@@ -48,10 +50,14 @@ PROPS = {
     "C07": {"runs": [{"funcs": [UPDATE] + SQL_FUNCS + IM_FUNCS, "tags": ["C07"]}], "assumptions": [A_NOTE, A_STORE, A_SQL]},
     "C08": {"funcs": [UPDATE], "tags": ["C08"], "assumptions": [A_NOTE, A_STORE, A_VCPREFIX]},
     "C09": {"funcs": [UPDATE], "tags": ["C09"], "assumptions": [A_NOTE, A_STORE, A_VCPREFIX]},
+    "C10": {"runs": [{"funcs": [BA + ".addHandler).handleUpdate", OW + ".witnessAdapter).Update", UPDATE], "tags": ["C10"]}],
+            "assumptions": [A_NOTE, A_STORE, "net/http ResponseWriter, rate.Limiter, strings.SplitN contracts (contracts/55_http.spec)",
+                            "the interface contract of feeder.Witness.Update is proved for omniwitness.witnessAdapter from the proved contract of (*Witness).Update under the adapter's configuration preconditions (store, published verifier, origins); omniwitness.Main establishing that configuration is read, not verified",
+                            "TLS 1.3 / HTTP-2 reverse connection, http.MaxBytesHandler and the rate limiter's arithmetic are not covered"]},
     "C20": {"funcs": [UPDATE, INITM], "tags": ["C20"], "assumptions": [A_NOTE, A_STORE, A_VCPREFIX, "monitoring.Counter.Inc adds one to the counter for its label (interface contract)"]},
 }
 
-HOOK_COMMITS = ["7296b73", "af7d29a", "308f21e", "b6239f6", "c655fca", "35e6d9a", "634df6a"]
+HOOK_COMMITS = ["7296b73", "af7d29a", "308f21e", "b6239f6", "c655fca", "35e6d9a", "634df6a", "1ee2140"]
 
 NOT_APPLICABLE = {
     "C14": "whole-system liveness and timing over goroutines, tickers, HTTP servers and stub log servers ('within a bounded number of poll intervals', across restarts): no per-function contract expresses 'eventually catches up', and omniwitness.Main (go/select/errgroup) is outside the generator's subset. Its safety ingredients are decided by C01, C12, C13, C16.",
@@ -85,6 +91,8 @@ MANIFEST_TEXT = {
             "note": "note.Open/Sign signature-count contract and the switch prefix of proof.RootFromConsistencyProof are assumed clauses read from the pinned dependency sources."},
     "C09": {"level": "Update's postcondition is the ordered decision table: one ensures clause per row with the spec-level first-match verdict computed from the entry state (known log, signature verdict, abstract store content, three 64-bit sizes, root equality, proof emptiness, vc verdict); sentinel errors compared by identity; path-complete, all of uint64^3.",
             "note": "the verdict of the Merkle hash chaining is the uninterpreted function vc(...); agreement with an independent RFC 6962 verifier is not decided here. The defect found by this check (F3) was repaired by commit eed264f."},
+    "C10": {"level": "Postconditions of (*addHandler).handleUpdate against the PROVED contract of the real witness (carried through the interface contract of feeder.Witness.Update, which omniwitness.witnessAdapter.Update is proved to refine from (*Witness).Update's contract -- the composition the test suite never exercises): the request reaches the witness exactly once and unchanged; accepted => 200 and the body is '— name base64\\n' of the first signature of the returned note verified under the witness verifier, over the submitted text; old size too large => 400; stale => 409 with Content-Type text/x.tlog.size and the decimal size of the stored checkpoint; root mismatch => 409; bad proof => 422; bad signature => 403.",
+            "note": "ServeHTTP (rate limiting 429, malformed body 400, unknown origin 404, exactly one WriteHeader) is covered by C19/C11 obligations where built; TLS/HTTP-2 leg not covered. F1 (over 100 signature lines) is carved out as a known finding."},
     "C20": {"level": "Ghost-counter postcondition of Update: per call, each of the four counters moves for label logID exactly as the spec-level verdict prescribes and no other (counter, label) moves (frame, quantified). Histories are sums of per-call deltas.",
             "note": "Counter.Inc adds one for its label (interface contract); the four counters are distinct non-nil objects (precondition, established by initMetrics with a factory returning fresh counters: not yet proved)."},
 }
